@@ -6,7 +6,9 @@ violated at time 0, explain() is called on the real offline specification object
 and to the values that would most help satisfaction — and the specification re-evaluated: it must still
 be violated at time 0.  The reported positions are also compared with those of the Lean mirror of the
 explainer (`explain`, Rtamt/Discrete/Explain.lean).  When the specification is satisfied at time 0 nothing
-may be reported.
+may be reported.  "The specification" of a text with several assertions is its main (last) assertion, the one
+whose value evaluate() returns (streams `modular` and `assertions`): earlier assertions count only through
+the references to them.
 """
 from .. import common, formula as F, impl, disc
 from ..engine import Violation, Ctx
@@ -14,7 +16,11 @@ from ..engine import Violation, Ctx
 RULE = ("typed random formulas over predicates, not/and/or/implies, prev/s_prev/next/s_next, once/historically/eventually/always "
         "bounded and unbounded (depth<=4), variables may occur several times; traces of length 1..10; 12 re-assignments per "
         "violating case (random, all +100, all -100, all 0, each single free position flipped to +-100). distinct by (spec, data); "
-        "non-trivial when violated at 0 and at least one position is not reported.")
+        "non-trivial when violated at 0 and at least one position is not reported. stream assertions: texts of 2-4 assertions "
+        "(one text or add_sub_spec()), the main (last) one referencing some, all or none of the earlier ones, traces steered so that "
+        "the main assertion is satisfied at 0 while a referenced / an unreferenced earlier assertion is violated (nothing may be "
+        "reported) or the main assertion is violated next to unreferenced earlier ones (sufficiency w.r.t. the value evaluate() "
+        "returns; positions and interval lists vs the model asked about the main assertion with the names inlined).")
 EXPLANATION = ("theorems (Lean, mirror of the explainer after the fix: commits): C20_sufficient_partial (on the fragment explFrag, for values with "
                "neg 0 = 0: every trace agreeing with the original on the positions reported for a specification violated at 0 is "
                "violated at 0) via the monotone invariant C20_mono / C20_invariant_partial over well-formed interval lists; "
@@ -128,9 +134,10 @@ def gen_data(rng, vs, n):
     return out
 
 
-def evaluate_and_explain(text, vs, data, n, pre=None, extra=(), sampling=None):
+def evaluate_and_explain(text, vs, data, n, pre=None, extra=(), sampling=None, sub_specs=()):
+    """`sub_specs`: assertions handed over with add_sub_spec() instead of being part of the text."""
     def go():
-        spec = impl.make_spec("offd", text, vs, single=True, extra_decl=list(extra), sampling=sampling)
+        spec = impl.make_spec("offd", text, vs, single=True, extra_decl=list(extra), sampling=sampling, sub_specs=list(sub_specs))
         spec.parse()
         if pre is not None:
             # the object has been used before: another trace evaluated and explained
@@ -149,8 +156,11 @@ def evaluate_and_explain(text, vs, data, n, pre=None, extra=(), sampling=None):
     return impl.guarded(go)
 
 
-def rho0(text, vs, data, n, extra=(), sampling=None):
-    o = impl.eval_offline_discrete(text, vs, data, n, extra_decl=list(extra), **({"sampling": sampling} if sampling else {}))
+def rho0(text, vs, data, n, extra=(), sampling=None, sub_specs=()):
+    kw = {"sampling": sampling} if sampling else {}
+    if sub_specs:
+        kw["sub_specs"] = list(sub_specs)
+    o = impl.eval_offline_discrete(text, vs, data, n, extra_decl=list(extra), **kw)
     return o if o[0] != "ok" else ("ok", o[1][0][1])
 
 
@@ -195,9 +205,15 @@ def compare_gen(ctx, what, ex, mg, text, rep):
     ctx.count("translated-explainer agrees")
 
 
-def check_case(ctx, f, data, n, rng, mo=None, mg=None, pre="random", text=None, extra=(), half=False):
-    """`text` / `extra`: a modular text (named sub-formulas) whose inlined form is `f`; then only sufficiency is judged (explain()
-    also explains the named assertions that are violated themselves, and the mirror knows single formulas)."""
+def check_case(ctx, f, data, n, rng, mo=None, mg=None, pre="random", text=None, extra=(), half=False, sub_specs=(), note="",
+               max_trials=None):
+    """`text` / `extra` / `sub_specs`: a text of several assertions (named sub-formulas, referenced by the last one or not; the
+    first ones possibly handed over with add_sub_spec()) whose MAIN assertion - the last one, the one whose value evaluate()
+    returns - is `f` once the names are inlined.  The property speaks about that assertion only: satisfied at 0 -> nothing may be
+    reported for any variable, whatever the earlier assertions are worth; violated at 0 -> sufficiency under re-evaluation of the
+    same text.  The model (`mo` / `mg`) is asked about `f`, i.e. about the main assertion only; without `mo` a modular case is
+    judged by the model-free oracle alone.  `note`: what the generator knows about the earlier assertions (for the message).
+    `max_trials`: cap on the number of re-assignments (the three constant fills are always kept)."""
     vs = sorted(data)
     modular = text is not None
     text = text or "out = " + F.to_text(f)
@@ -217,8 +233,13 @@ def check_case(ctx, f, data, n, rng, mo=None, mg=None, pre="random", text=None, 
         pre = gen_data(rng, vs, rng.randint(1, 8)) if rng.random() < 0.25 else None
     if pre is not None:
         ctx.count("reused-object")
-    out = evaluate_and_explain(text, vs, data, n, pre, extra, sampling)
+    out = evaluate_and_explain(text, vs, data, n, pre, extra, sampling, sub_specs)
     rep = {"pre": pre, "extra": list(extra), "modular": modular, "half": half, "spec": text, "formula": F.to_proto(f), "data": data, "n": n, "impl": out}
+    if sub_specs:
+        rep["sub_specs"] = list(sub_specs)
+    if note:
+        rep["assertions"] = note
+    shown = text if not sub_specs else "%s [add_sub_spec: %s]" % (text, " ".join(sub_specs))
     if out[0] != "ok":
         return Violation("evaluate()/explain() raised %r: %s" % (out[1:], text), rep, stream="expl")
     r0, ex = out[1]
@@ -226,8 +247,10 @@ def check_case(ctx, f, data, n, rng, mo=None, mg=None, pre="random", text=None, 
         ctx.skipped_undef += 1
         return None
     if not r0 < 0:
-        if any(ex[v] for v in ex) and not modular:
-            return Violation("specification satisfied at 0 (rho=%r) but explain() reports %r: %s" % (r0, ex, text), rep, stream="expl/sat")
+        if any(ex[v] for v in ex):
+            return Violation("specification satisfied at 0 (evaluate() returns %r at time 0) but explain() reports %r%s: %s"
+                             % (r0, ex, (" (" + note + ")") if note else "", shown), rep,
+                             stream="expl/sat-modular" if modular else "expl/sat")
         ctx.count("satisfied")
         return None
     ctx.count("violated")
@@ -235,7 +258,7 @@ def check_case(ctx, f, data, n, rng, mo=None, mg=None, pre="random", text=None, 
         compare_gen(ctx, "explain()", ex, mg, text, rep)
     pos = reported_positions(ex, n)
     # correspondence: positions reported by the mirror of the explainer
-    if modular:
+    if modular and mo is None:
         mo = "skip"
     if mo is None:
         mo = common.driver_run([disc.proto_case("explain", f, data, n)])[0]
@@ -275,19 +298,21 @@ def check_case(ctx, f, data, n, rng, mo=None, mg=None, pre="random", text=None, 
     for p in free[:4]:
         for val in pool[:6]:
             trials.append({p: val})
+    if max_trials is not None and len(trials) > max_trials:
+        trials = trials[:3] + rng.sample(trials[3:], max_trials - 3)
     for tr in trials:
         d2 = {v: list(data[v]) for v in vs}
         for (v, t), val in tr.items():
             d2[v][t] = val
         ctx.evaluations += 1
-        o2 = rho0(text, vs, d2, n, extra, sampling)
+        o2 = rho0(text, vs, d2, n, extra, sampling, sub_specs)
         if o2[0] != "ok":
             return Violation("re-evaluation raised %r: %s" % (o2[1:], text), dict(rep, reassigned=d2), stream="expl")
         if o2[1] != o2[1]:
             continue
         if not o2[1] < 0:
             return Violation("explanation %r is not a sufficient cause: the trace %r agrees with the original on all reported positions "
-                             "but has rho(0) = %r (original %r): %s" % (ex, d2, o2[1], r0, text), dict(rep, reassigned=d2, explanation=ex),
+                             "but has rho(0) = %r (original %r): %s" % (ex, d2, o2[1], r0, shown), dict(rep, reassigned=d2, explanation=ex),
                              stream="expl")
     return None
 
@@ -346,9 +371,20 @@ def explore(ctx, rng, count):
                 return
 
 
+def model_main(cases):
+    """The model side for texts of several assertions: `explain` / `explaingen` are asked about the MAIN assertion only (the last
+    one, names inlined) - the driver commands take one formula, there is nothing on the model side that walks earlier assertions."""
+    mos = common.driver_run([disc.proto_case("explain", c["f"], c["data"], c["n"]) for c in cases])
+    mgs = common.driver_run(["explaingen | %s | %d | 0 | spec | %s" % (F.to_proto(c["f"]), c["n"], disc.sigs(c["data"])) for c in cases])
+    return mos, mgs
+
+
 def modular_stream(ctx, rng, count):
     """A named sub-formula referenced several times in one assertion, at different time offsets (the explainer reaches the shared
-    node with different requested intervals): sufficiency of what explain() reports for the modular text."""
+    node with different requested intervals): what explain() reports for the modular text - nothing when the main assertion is
+    satisfied at 0 (also when the named sub-formula itself is violated at 0), a sufficient cause otherwise, and the same
+    positions / interval lists as the model reports for the main assertion with the name inlined."""
+    cases = []
     for _ in range(count):
         nv = rng.choice([1, 2])
         g = EGen(rng, VARS[:nv], ALLOW, max_bound=rng.choice([1, 2, 3]), consts=(0.0, 1.0, 2.0))
@@ -389,9 +425,150 @@ def modular_stream(ctx, rng, count):
         text = "sub0 = %s;\nout = %s" % (F.to_text(sub), F.to_text(body))
         n = rng.randint(2, 9)
         data = gen_data(rng, F.variables(f) or ["a"], n)
+        cases.append({"f": f, "text": text, "n": n, "data": data})
+    mos, mgs = model_main(cases)
+    for c, mo, mg in zip(cases, mos, mgs):
+        f, text, n, data = c["f"], c["text"], c["n"], c["data"]
         ctx.evaluations += 1
         ctx.count("gen:modular")
-        v = check_case(ctx, f, data, n, rng, pre=None, text=text, extra=("sub0",))
+        v = check_case(ctx, f, data, n, rng, mo, mg, pre=None, text=text, extra=("sub0",))
+        if v is None:
+            ctx.traces_validated += 1
+        else:
+            ctx.violations.append(v)
+            if len(ctx.violations) >= 3:
+                return
+
+
+# ------------------------------------------------------------------------------- several assertions
+def unsat0(line):
+    """Model value at time 0 of a `rho` line: True (violated) / False (satisfied) / None (undefined, NaN, rejected)."""
+    o = disc.parse_model(line)
+    if o[0] != "ok" or not o[1]:
+        return None
+    x = o[1][0]
+    return None if x != x else bool(x < 0)
+
+
+def assertions_stream(ctx, rng, count):
+    """Texts of several assertions `p0 = ..; p1 = ..; out = ..` (one text, or the earlier ones handed over with add_sub_spec()):
+    each earlier assertion may use the ones before it, and the main assertion references some of them, all of them or none.
+    evaluate() returns the value of the MAIN (last) assertion, so the property is about that one:
+      target sat/ref   - main satisfied at 0 while an earlier assertion it references is violated at 0     -> nothing reported
+      target sat/unref - main satisfied at 0 while an earlier assertion it does NOT reference is violated  -> nothing reported
+      target viol      - main violated at 0, some earlier assertion not referenced (satisfied or violated) -> sufficient cause
+                         w.r.t. re-evaluation of the same text, and exactly what the model reports for the main assertion
+      target any       - no steering.
+    The traces are steered towards the target with the model's `rho` of every assertion (names inlined) on a few candidate
+    traces; the judgement itself never uses these values (only the `note` in the message does)."""
+    protos = []
+    for i in range(count):
+        target = ("sat/ref", "sat/unref", "viol", "any")[i % 4]
+        g = EGen(rng, VARS, ALLOW, max_bound=rng.choice([1, 2, 3]), consts=(0.0, 1.0, 2.0))
+        g.iffxor = False
+        k = rng.choice([1, 1, 2, 2, 3])
+        names = ["p%d" % j for j in range(k)]
+        bodies = []
+        for j in range(k):
+            g.vars = rng.choice([["a"], ["b"], ["a", "b"]])
+            b = g.formula(rng.choice([0, 0, 1, 2]))
+            if j and rng.random() < 0.35:
+                q = ("v", names[rng.randrange(j)])
+                if rng.random() < 0.3:
+                    q = ("u", "not", q)
+                b = ("b", rng.choice(["and", "or", "implies"]), q, b) if rng.random() < 0.5 else ("b", rng.choice(["and", "or", "implies"]), b, q)
+            bodies.append(b)
+        ref = [nm for nm in names if rng.random() < 0.5]
+        if target == "sat/ref" and not ref:
+            ref = [rng.choice(names)]
+        if target in ("sat/unref", "viol") and len(ref) == k:
+            ref.remove(rng.choice(ref))
+
+        def occ(nm):
+            x = ("v", nm)
+            r_ = rng.random()
+            if r_ < 0.3:
+                return ("u", "not", x)
+            if r_ < 0.45:
+                return ("t1", rng.choice(["next", "prev", "ev", "alw", "once", "hist"]), x)
+            if r_ < 0.55:
+                a = rng.randint(0, 2)
+                return ("tb1", rng.choice(["ev", "alw", "once", "hist"]), a, a + rng.randint(0, 2), x)
+            return x
+        parts = [occ(nm) for nm in ref]
+        if not parts or rng.random() < 0.65:
+            g.vars = rng.choice([["a"], ["b"], ["a", "b"]])
+            parts.append(g.formula(rng.choice([0, 1, 2])))
+        rng.shuffle(parts)
+        body = parts[0]
+        for p_ in parts[1:]:
+            body = ("b", rng.choice(["and", "and", "and", "or", "implies"] if target == "viol" else ["and", "or", "or", "implies"]), body, p_)
+        if len(parts) == 1 and ref and body == ("v", ref[0]) and rng.random() < 0.5:
+            body = ("u", "not", body)                       # not only the alias `out = p0`
+
+        inl = {}
+
+        def inline(x):
+            if x[0] == "v" and x[1] in inl:
+                return inl[x[1]]
+            return F.rebuild(x, [inline(c_) for c_ in F.children(x)])
+        for nm, b in zip(names, bodies):
+            inl[nm] = inline(b)
+        f = inline(body)
+        if any(disc.known_region(ctx, {"f": x}, REGIONS) for x in [f] + list(inl.values())):
+            ctx.skipped_known += 1
+            continue
+        lines = ["%s = %s;" % (nm, F.to_text(b)) for nm, b in zip(names, bodies)]
+        n = rng.randint(1, 8)
+        cands = [gen_data(rng, VARS, n) for _ in range(4)]
+        protos.append({"target": target, "names": names, "ref": ref, "lines": lines, "main": "out = " + F.to_text(body), "f": f,
+                       "inl": [inl[nm] for nm in names], "n": n, "cands": cands, "as_subs": rng.random() < 0.35})
+    # steering: the model's value at 0 of the main and of every earlier assertion on every candidate trace
+    qs = []
+    for c in protos:
+        for d in c["cands"]:
+            qs.extend(disc.proto_case("rho", x, d, c["n"]) for x in [c["f"]] + c["inl"])
+    outs = common.driver_run(qs)
+    at = 0
+    for c in protos:
+        w = 1 + len(c["inl"])
+        best = None
+        for d in c["cands"]:
+            u = [unsat0(o) for o in outs[at:at + w]]
+            at += w
+            early = dict(zip(c["names"], u[1:]))
+            refv = [nm for nm in c["ref"] if early[nm]]
+            unrefv = [nm for nm in c["names"] if nm not in c["ref"] and early[nm]]
+            hit = {"sat/ref": u[0] is False and bool(refv), "sat/unref": u[0] is False and bool(unrefv),
+                   "viol": u[0] is True, "any": True}[c["target"]]
+            if best is None or (hit and not best[0]):
+                best = (hit, d, u[0], early)
+        hit, c["data"], m0, early = best
+        c["hit"] = hit
+        c["note"] = "main %s at 0 by the model; earlier assertions: %s" % (
+            {True: "violated", False: "satisfied", None: "undefined"}[m0],
+            ", ".join("%s %s%s" % (nm, {True: "violated", False: "satisfied", None: "undefined"}[early[nm]],
+                                   "" if nm in c["ref"] else " (not referenced)") for nm in c["names"]))
+        main = "main %s" % {True: "violated", False: "satisfied", None: "undefined"}[m0]
+        unref = [nm for nm in c["names"] if nm not in c["ref"]]
+        c["cls"] = [main] + [main + ", " + what for what, yes in (
+            ("a referenced earlier assertion violated", any(early[nm] for nm in c["ref"])),
+            ("an unreferenced earlier assertion violated", any(early[nm] for nm in unref)),
+            ("an unreferenced earlier assertion satisfied", any(early[nm] is False for nm in unref))) if yes]
+    mos, mgs = model_main(protos)
+    for c, mo, mg in zip(protos, mos, mgs):
+        ctx.evaluations += 1
+        ctx.count("gen:assertions")
+        for cls in c["cls"]:
+            ctx.count("assertions:" + cls)
+        ctx.count("assertions:target %s %s" % (c["target"], "reached" if c["hit"] else "missed"))
+        if c["as_subs"]:
+            ctx.count("assertions:add_sub_spec")
+            text, subs = c["main"], tuple(c["lines"])
+        else:
+            text, subs = "\n".join(c["lines"] + [c["main"]]), ()
+        v = check_case(ctx, c["f"], c["data"], c["n"], rng, mo, mg, pre=None, text=text, extra=tuple(c["names"]), sub_specs=subs,
+                       note=c["note"], max_trials=14)
         if v is None:
             ctx.traces_validated += 1
         else:
@@ -506,16 +683,17 @@ def replay(ctx, obj):
     data = {k: [float(x) for x in v] for k, v in obj["data"].items()}
     pre = {k: [float(x) for x in v_] for k, v_ in obj["pre"].items()} if obj.get("pre") else None
     mtext, extra = (obj["spec"], tuple(obj.get("extra") or ())) if obj.get("modular") else (None, ())
+    subs = tuple(obj.get("sub_specs") or ())
     v = check_case(Ctx(ctx.id, ctx.tier, ctx.seed), f, data, obj["n"], random.Random(0), pre=pre, text=mtext, extra=extra,
-                   half=obj.get("half") or False)
+                   half=obj.get("half") or False, sub_specs=subs, note=obj.get("assertions") or "")
     if v is None and "reassigned" in obj:
         d2 = {k: [float(x) for x in vv] for k, vv in obj["reassigned"].items()}
         text = mtext or "out = " + F.to_text(f)
-        out = evaluate_and_explain(text, sorted(data), data, obj["n"], None, extra)
+        out = evaluate_and_explain(text, sorted(data), data, obj["n"], None, extra, None, subs)
         if out[0] == "ok" and out[1][0] < 0:
             pos = reported_positions(out[1][1], obj["n"])
             agrees = all(d2[v][t] == data[v][t] for (v, t) in pos)
-            o2 = rho0(text, sorted(data), d2, obj["n"], extra)
+            o2 = rho0(text, sorted(data), d2, obj["n"], extra, None, subs)
             if agrees and o2[0] == "ok" and not o2[1] < 0:
                 return False, "explanation is not a sufficient cause on the replayed re-assignment"
     return (v is None), (v.what if v else "explanation is a sufficient cause on the replayed case")
@@ -523,6 +701,8 @@ def replay(ctx, obj):
 
 def run(ctx):
     explore(ctx, ctx.subrng("expl"), ctx.budget(1500, 20000))
+    if not ctx.violations:
+        assertions_stream(ctx, ctx.subrng("assertions"), ctx.budget(240, 3000))
     if not ctx.violations:
         modular_stream(ctx, ctx.subrng("modular"), ctx.budget(250, 3000))
     if not ctx.violations:
